@@ -318,3 +318,25 @@ package protobuf
 //@ func verifPBBaseChannelProposalAcc
 //@   inlines FromBaseChannelProposalAcc, ToBaseChannelProposalAcc
 //@   ensures result.ProposalID == x.ProposalID && result.NonceShare == x.NonceShare
+
+// The small messages.
+//@ func verifPBChannelProposalRejMsg
+//@   requires x != nil
+//@   modifies *
+//@   inlines FromChannelProposalRejMsg, ToChannelProposalRejMsg
+//@   ensures result != nil && result.ProposalID == x.ProposalID && result.Reason == x.Reason
+//@ func verifPBChannelUpdateAccMsg
+//@   requires x != nil
+//@   modifies *
+//@   inlines FromChannelUpdateAccMsg, ToChannelUpdateAccMsg
+//@   ensures result != nil && result.ChannelID == x.ChannelID && result.Version == x.Version && len(result.Sig) == len(x.Sig) && forall j int :: 0 <= j && j < len(x.Sig) ==> result.Sig[j] == x.Sig[j]
+//@ func verifPBChannelUpdateRejMsg
+//@   requires x != nil
+//@   modifies *
+//@   inlines FromChannelUpdateRejMsg, ToChannelUpdateRejMsg
+//@   ensures result != nil && result.ChannelID == x.ChannelID && result.Version == x.Version && result.Reason == x.Reason
+//@ func verifPBSubChannelProposalAccMsg
+//@   requires x != nil
+//@   modifies *
+//@   inlines FromSubChannelProposalAccMsg, ToSubChannelProposalAccMsg, FromBaseChannelProposalAcc, ToBaseChannelProposalAcc
+//@   ensures result != nil && result.ProposalID == x.ProposalID && result.NonceShare == x.NonceShare
